@@ -31,7 +31,7 @@ func init() { core.Register(check{}) }
 func (check) ID() string    { return "C12" }
 func (check) Level() string { return "model_checking" }
 func (check) Rule() string {
-	return "controlled scheduler (cooperative threads, scheduling points before every pool Get, before every Put and after every Put of every sync.Pool of the library via the vsync shim) + stateless DFS with iterative preemption bounding: every ordered pair of ops of the menu with preemption bound 2 (thorough 3), every triple of a 15-op core menu with bound 1 (thorough 2); each execution runs to completion and is checked: every result equals the op's solo result, shared inputs byte-identical (checksums), descriptor dump identical, no result's backing array overlaps an object sitting in a pool, no panic. Pools are poisoned on Put (bytes 0xDB / words all-ones beyond len) so that a use-after-put or a missing copy-out reads garbage. Histories: every sequence of <=3 (thorough 4) ops run sequentially under the same adversarial pool, all results kept and re-validated after every later call; states = distinct pool fingerprints. Race monitor: the op bodies free-running on 8 goroutines under -race (not exhaustive, monitor only). A case = one (pair|triple|history family); non-trivial if its threads touched at least one common pool; states/transitions/traces are measured. Later additions: 38-op menu / 16-op core menu (shuffled-id struct + DescriptorToPathNode, header value held by reference under NoCopyString, shared HTTP converters, shared Int642String p2j converter with a failing int64-key input), memory fingerprint of the descriptors around every case, reference results taken up front (succeeding ops first). Round 8: ops sharing one caller-owned name path over two struct types (argument must stay unchanged), j2p failing right behind an unknown root key. Round 9: forks of a shared path-only template through GetTree. Round 10: the text of a ConvertException error as a held result; identity cut with the input buffer reused (op assertions)."
+	return "controlled scheduler (cooperative threads, scheduling points before every pool Get, before every Put and after every Put of every sync.Pool of the library via the vsync shim) + stateless DFS with iterative preemption bounding: every ordered pair of ops of the menu with preemption bound 2 (thorough 3), every triple of a 15-op core menu with bound 1 (thorough 2); each execution runs to completion and is checked: every result equals the op's solo result, shared inputs byte-identical (checksums), descriptor dump identical, no result's backing array overlaps an object sitting in a pool, no panic. Pools are poisoned on Put (bytes 0xDB / words all-ones beyond len) so that a use-after-put or a missing copy-out reads garbage. Histories: every sequence of <=3 (thorough 4) ops run sequentially under the same adversarial pool, all results kept and re-validated after every later call; states = distinct pool fingerprints. Race monitor: the op bodies free-running on 8 goroutines under -race (not exhaustive, monitor only). A case = one (pair|triple|history family); non-trivial if its threads touched at least one common pool; states/transitions/traces are measured. Later additions: 38-op menu / 16-op core menu (shuffled-id struct + DescriptorToPathNode, header value held by reference under NoCopyString, shared HTTP converters, shared Int642String p2j converter with a failing int64-key input), memory fingerprint of the descriptors around every case, reference results taken up front (succeeding ops first). Round 8: ops sharing one caller-owned name path over two struct types (argument must stay unchanged), j2p failing right behind an unknown root key. Round 9: forks of a shared path-only template through GetTree. Round 10: the text of a ConvertException error as a held result; identity cut with the input buffer reused (op assertions). Round 11: lazy load of another message on a pooled proto tree."
 }
 func (check) Assumptions() []string {
 	return []string{"the only synchronisation objects of the library are sync.Pools (grep-verified at design time); data races on plain memory are left to the free-running -race monitor, whose silence adds no exhaustiveness claim", "within one pool operation-free segment a thread runs atomically (sound for properties about pool ownership, not for unsynchronised plain-memory races)", "poison-on-Put models 'memory from pool may be dirty'", "GOMAXPROCS=1 in workers"}
